@@ -141,27 +141,50 @@ pub fn cosine_distance(a: &[f32], b: &[f32]) -> f64 {
         return f64::INFINITY;
     }
 
+    let (dot_product, norm_a_sq, norm_b_sq) = cosine_terms(a, b);
+
+    let norm_a = norm_a_sq.sqrt();
+    let norm_b = norm_b_sq.sqrt();
+
+    if norm_a == 0.0 || norm_b == 0.0 {
+        return 0.0; // Treat zero vectors as identical
+    }
+
+    let similarity = dot_product / (norm_a * norm_b);
+    // Clamp to handle floating point errors
+    1.0 - similarity.clamp(-1.0, 1.0)
+}
+
+/// Dot product and squared norms of two equally long vectors, accumulated in f32 in a single
+/// pass (cache efficiency). Components of about 1.8e19 and more overflow an f32 sum of
+/// squares (inf / inf = NaN would survive the clamp): then the terms are accumulated in f64.
+fn cosine_terms(a: &[f32], b: &[f32]) -> (f64, f64, f64) {
     let mut dot_product: f32 = 0.0;
     let mut norm_a_sq: f32 = 0.0;
     let mut norm_b_sq: f32 = 0.0;
 
-    // Single pass through both vectors for cache efficiency
     for (x, y) in a.iter().zip(b.iter()) {
         dot_product += x * y;
         norm_a_sq += x * x;
         norm_b_sq += y * y;
     }
 
-    let norm_a = f64::from(norm_a_sq).sqrt();
-    let norm_b = f64::from(norm_b_sq).sqrt();
-
-    if norm_a == 0.0 || norm_b == 0.0 {
-        return 0.0; // Treat zero vectors as identical
+    if dot_product.is_finite() && norm_a_sq.is_finite() && norm_b_sq.is_finite() {
+        return (
+            f64::from(dot_product),
+            f64::from(norm_a_sq),
+            f64::from(norm_b_sq),
+        );
     }
 
-    let similarity = f64::from(dot_product) / (norm_a * norm_b);
-    // Clamp to handle floating point errors
-    1.0 - similarity.clamp(-1.0, 1.0)
+    let (mut dot, mut na, mut nb) = (0.0f64, 0.0f64, 0.0f64);
+    for (x, y) in a.iter().zip(b.iter()) {
+        let (x, y) = (f64::from(*x), f64::from(*y));
+        dot += x * y;
+        na += x * x;
+        nb += y * y;
+    }
+    (dot, na, nb)
 }
 
 /// Compute dot product of two vectors.
@@ -312,24 +335,16 @@ pub fn cosine_distance_checked(a: &[f32], b: &[f32]) -> Result<f64, VectorError>
         });
     }
 
-    let mut dot_product: f32 = 0.0;
-    let mut norm_a_sq: f32 = 0.0;
-    let mut norm_b_sq: f32 = 0.0;
+    let (dot_product, norm_a_sq, norm_b_sq) = cosine_terms(a, b);
 
-    for (x, y) in a.iter().zip(b.iter()) {
-        dot_product += x * y;
-        norm_a_sq += x * x;
-        norm_b_sq += y * y;
-    }
-
-    let norm_a = f64::from(norm_a_sq).sqrt();
-    let norm_b = f64::from(norm_b_sq).sqrt();
+    let norm_a = norm_a_sq.sqrt();
+    let norm_b = norm_b_sq.sqrt();
 
     if norm_a == 0.0 || norm_b == 0.0 {
         return Ok(0.0); // Treat zero vectors as identical
     }
 
-    let similarity = f64::from(dot_product) / (norm_a * norm_b);
+    let similarity = dot_product / (norm_a * norm_b);
     Ok(1.0 - similarity.clamp(-1.0, 1.0))
 }
 
